@@ -1355,6 +1355,45 @@ pub fn c09_min_max() {
     let bounds = format!("[{}].all(x, r {} x) && [{}].exists(x, r == x)", items.join(", "), rel, items.join(", "));
     check!(Program::compile(&bounds).expect("compiles").execute(&c2) == Ok(Value::Bool(true)), "the result is one of the values and bounds all of them");
 }
+/// C14: size() of lists, maps, strings and bytes (function and method style), its additivity over `+`, startsWith / endsWith.
+pub fn c14_size_affixes() {
+    let (case, a, b): (u8, u8, u8) = (any(), any(), any());
+    crate::sym::assume(case <= 5 && a <= 3 && b <= 3);
+    let texts = ["", "a", "h\u{e9}", "\u{65e5}\u{672c}x"];
+    let (ta, tb) = (texts[a as usize], texts[b as usize]);
+    let list = |k: u8| Value::List(Arc::new((0..k as i64).map(Value::Int).collect()));
+    let mut ctx = Context::default();
+    ctx.add_variable_from_value("la", list(a));
+    ctx.add_variable_from_value("lb", list(b));
+    ctx.add_variable_from_value("sa", Value::String(Arc::new(ta.to_string())));
+    ctx.add_variable_from_value("sb", Value::String(Arc::new(tb.to_string())));
+    ctx.add_variable_from_value("ba", Value::Bytes(Arc::new(ta.as_bytes().to_vec())));
+    let mut m = std::collections::HashMap::new();
+    for j in 0..a {
+        m.insert(format!("k{}", j), Value::Int(j as i64));
+    }
+    ctx.add_variable_from_value("ma", m);
+    let run = |src: &str| Program::compile(src).expect("compiles").execute(&ctx);
+    let int = |k: usize| Ok(Value::Int(k as i64));
+    match case {
+        0 => {
+            check!(run("size(la)") == int(a as usize) && run("la.size()") == int(a as usize), "size of a list is its number of elements, in both call styles");
+            check!(run("size(la + lb) == size(la) + size(lb)") == Ok(Value::Bool(true)), "size is additive over list concatenation");
+        }
+        1 => {
+            check!(run("size(sa)") == int(ta.len()) && run("sa.size()") == int(ta.len()), "size of a string is the length of its text");
+            check!(run("size(sa + sb) == size(sa) + size(sb)") == Ok(Value::Bool(true)), "size is additive over string concatenation");
+        }
+        2 => check!(run("size(ma)") == int(a as usize) && run("ma.size()") == int(a as usize), "size of a map is its number of entries"),
+        3 => check!(run("size(ba)") == int(ta.len()), "size of a bytes value is its number of bytes"),
+        4 => {
+            check!(run("sa.startsWith(sb)") == Ok(Value::Bool(ta.starts_with(tb))), "startsWith is the prefix test of (receiver, argument)");
+            check!(run("sa.endsWith(sb)") == Ok(Value::Bool(ta.ends_with(tb))), "endsWith is the suffix test of (receiver, argument)");
+            check!(run("(sa + sb).startsWith(sa) && (sa + sb).endsWith(sb)") == Ok(Value::Bool(true)), "a concatenation starts with its left and ends with its right operand");
+        }
+        _ => check!(run("size(1)").is_err() && run("size(true)").is_err() && run("size(null)").is_err(), "size of a scalar is an error"),
+    }
+}
 /// C04 visitor half: a run of k prefix operators applies the operator k times (an even run cancels).
 pub fn c04_prefix() {
     let (op, k, operand): (u8, u8, u8) = (any(), any(), any());
@@ -1917,6 +1956,7 @@ crate::replay_only! {
     #[kani::unwind(2)] c17_special_members: "off", "structs / struct variants / sequences / maps with None, unit, zero, false and empty members through to_value, exact key-set and kind comparison", "four shapes";
     #[kani::unwind(2)] c09_container_self_equality: "off", "Value == Value and `x == x` / `x != x` through Program::compile + execute on lists and maps (nested) holding NaN or an int, both operands one allocation", "4 shapes x 2 payloads x 3 ways of asking";
     #[kani::unwind(2)] c09_min_max: "off", "min(..) / max(..) over 1-4 numbers of mixed kinds, separate arguments or one list, judged by the language's own comparisons", "2 functions x 2 forms x 1-4 values x 24 orders";
+    #[kani::unwind(2)] c14_size_affixes: "off", "size / startsWith / endsWith through Program::compile + execute on lists, maps, strings (non-ASCII included) and bytes, additivity over +", "6 cases x 4 x 4 operands";
     #[kani::unwind(2)] c12_literal: "off", "a string / bytes literal token through Program::compile + execute against an independent decoder of the CEL literal syntax", "token text of up to 24 characters taken from the vector";
     #[kani::unwind(2)] c13_string_roundtrip: "off", "int(string(x)) / uint(string(x)) / double(string(x)) through Program::compile + execute", "payload bits from the vector";
     #[kani::unwind(2)] c13_literal: "off", "int / uint literals of every sign, radix and magnitude through Program::compile + execute", "text built from the vector";
